@@ -102,6 +102,7 @@ def handleCrew (j : Json) : Json :=
           let store' := applyChanges store r.changed
           let obs := Json.mkObj [("changed", changedJson r.changed),
                                  ("emitted", sortedTexts r.emitted.flatten),
+                                 ("batches", sortedTexts ((r.emitted.filter (fun b => !b.isEmpty)).map V.arr)),
                                  ("live", viewJson (liveView c')),
                                  ("store", viewJson (storeView store'))]
           (some (c', store'), acc.2 ++ [obs]))
@@ -114,6 +115,12 @@ def handleCrew (j : Json) : Json :=
                                              ("live", (getObj? o "live").getD .null)]
   let corr := (getObj? go "panic").isNone &&
     (normJson (Json.arr (goSteps.map strip).toArray)).compress == (normJson (Json.arr (run.2.map strip).toArray)).compress
+  -- C08 on the implementation's observations: where the crews agree on every machine's state, the
+  -- reported batches are the walks' emissions (those of the completed actions, in execution order)
+  let statesOf := fun (o : Json) => (normJson (Json.mkObj [("changed", (getObj? o "changed").getD .null), ("live", (getObj? o "live").getD .null)])).compress
+  let batchesOf := fun (o : Json) => (normJson ((getObj? o "batches").getD (Json.arr #[]))).compress
+  let crewEmitExact := goSteps.length != run.2.length ||
+    (goSteps.zip run.2).all (fun (g, m) => statesOf g != statesOf m || batchesOf g == batchesOf m)
   -- C15 on the implementation's observations: the shadow store folded from the reported changes equals the live crew
   let storeEq := goSteps.all (fun o => (normJson ((getObj? o "store").getD .null)).compress == (normJson ((getObj? o "live").getD .null)).compress)
   -- C14 on the implementation's observations: a message of the last depth (no follow-ups) is
@@ -153,7 +160,7 @@ def handleCrew (j : Json) : Json :=
     (if history.any (fun m => match m with | .obj kvs => (lookup "to" kvs).isNone | _ => true) then ["broadcast"] else []) ++
     (if run.2.any (fun o => match getObj? o "emitted" with | some (.arr a) => a.size > 0 | _ => false) then ["emits"] else []) ++
     (if run.2.any (fun o => match getObj? o "changed" with | some (.obj m) => m.toList.any (fun (_, c) => getBool c "deleted") | _ => false) then ["deleted"] else [])
-  Json.mkObj [("corr", corr), ("prop", boolsJson [("storeEqLive", storeEq), ("deliveredOnce", delivered)]), ("model", mine),
+  Json.mkObj [("corr", corr), ("prop", boolsJson [("storeEqLive", storeEq), ("deliveredOnce", delivered), ("crewEmitExact", crewEmitExact)]), ("model", mine),
               ("feat", jstrs feats), ("nontrivial", decide (history.length > 1)),
               ("key", (Json.mkObj [("specs", specsJ), ("init", initJ), ("history", (getObj? j "history").getD .null)]).compress)]
 
